@@ -344,6 +344,11 @@ func tryGetRedumpKey(fsys afero.Fs, requestedPath string) ([]byte, error) {
 // too long or below something that is not a directory, and a directory with key file name)
 // is reported as afero.ErrFileNotFound.
 func openKeyFile(fsys afero.Fs, path string) (afero.File, error) {
+	// named pipe with key file name would block open forever
+	if err := checkNotSpecial(fsys, path); err != nil {
+		return nil, err
+	}
+
 	f, err := fsys.Open(path)
 	if err != nil {
 		if errors.Is(err, syscall.ENOTDIR) || errors.Is(err, syscall.ENAMETOOLONG) {
